@@ -77,6 +77,15 @@ CLAIMED["C25"] = (
     "Exhaustive model checking of the documented transition order over all box forests within the bound plus conformance of the "
     "real Boxer on every transition of the model (every active box, every firing box/destination, forced re-entry, keep-trying "
     "after a failed precondition, end).", "3 C25", "")
+CLAIMED["C29"] = (
+    "TLA+ spec specs/misc/FilerPath.tla (path algebra over head/tail/base/name with '.' and '..' segments, extension rule, "
+    "filesystem effects of Open and Close(clear) for persistent and temp resources): TLC exhaustive MC of Contained/"
+    "ClearRemovesOwn/NothingOnRefusal over all 32 flag combinations x bases x names in the bounds; every configuration of the "
+    "model executed with a real Filer in a guarded scratch sandbox and compared (refusal, .path, created/deleted paths, state "
+    "after close) (spec->code)",
+    "Exhaustive model checking of the containment and clear rules for every configuration within the bounds plus conformance of "
+    "the real Filer on every one of them, with all filesystem mutations intercepted by a guard that refuses anything outside the "
+    "sandbox before it happens.", "3 C29", "")
 NA = {
  "C28": "pure value-fidelity of json/cbor2/msgpack + dataclass reflection: no state/transition structure for a TLA+ model to decide (DESIGN.md section 4)",
 }
